@@ -2,7 +2,7 @@
    under test on every run (Gen/Extracted_timer.v: new start_time / timeout / expire_time / stopped and the effects
    on self.proc in program order) are [do_stop] / [do_restart fixed] of the hand-written automaton (Elem/Timer.v)
    the C19 theorems are about. *)
-From Coq Require Import ZArith QArith List Bool.
+From Coq Require Import ZArith QArith List Bool Lqa.
 From ONL Require Import Elem.Timer Gen.Extracted_timer.
 Import ListNotations.
 
@@ -26,29 +26,43 @@ Definition timer_fx_run (st : timer) (f : timer_st) (fx : list timer_fx) : timer
   fold_left timer_fx_apply fx (timer_with_fields st f).
 
 (* observations: `self.env.active_process is self.proc` for a call made by `caller` (None = not a timer process),
-   `self.proc.is_alive` *)
-Definition timer_gen_stop (st : timer) (tau : Q) (own alive_ : bool) :=
-  gen_Timer_stop (timer_fields st) (tnow st) tau own alive_.
-Definition timer_gen_restart (caller : option nat) (tau : Q) (st : timer) :=
-  gen_Timer_restart (timer_fields st) (tnow st) tau (is_caller caller (cur st)) (cur_alive st).
+   `self.proc.is_alive`, and nx = `math.nextafter(self.env.now, math.inf)`, which Timer._arm substitutes for
+   now + tau when tau > 0 and yet not now + tau > now: in exact arithmetic that never happens, so the bridge holds
+   for EVERY nx (what the substitution does in binary64 is outside the model, see props/c19.py trusted_base) *)
+Definition timer_gen_stop (st : timer) (tau nx : Q) (own alive_ : bool) :=
+  gen_Timer_stop (timer_fields st) (tnow st) tau nx own alive_.
+Definition timer_gen_restart (caller : option nat) (tau nx : Q) (st : timer) :=
+  gen_Timer_restart (timer_fields st) (tnow st) tau nx (is_caller caller (cur st)) (cur_alive st).
+
+(* the guard of _arm's substitution is dead in exact arithmetic *)
+Lemma arm_guard_dead (now tau : Q) :
+  negb (Qle_bool tau (0 # 1)) && negb (negb (Qle_bool (now + tau) now)) = false.
+Proof.
+  destruct (Qle_bool tau (0 # 1)) eqn:E1; [reflexivity|].
+  destruct (Qle_bool (now + tau) now) eqn:E2; [|reflexivity].
+  exfalso. apply Qle_bool_iff in E2.
+  assert (~ tau <= 0 # 1) as N by (intro H; apply Qle_bool_iff in H; congruence).
+  apply N. lra.
+Qed.
 
 Lemma upd_length {A} i (f : A -> A) l : length (upd i f l) = length l.
 Proof. revert i; induction l as [|x t IH]; intros [|i]; cbn; auto. Qed.
 
 (* stop(): whatever the remaining observations are *)
-Lemma bridge_timer_stop st tau own al :
-  let g := timer_gen_stop st tau own al in
+Lemma bridge_timer_stop st tau nx own al :
+  let g := timer_gen_stop st tau nx own al in
   do_stop st = timer_fx_run st (fst g) (snd g) /\ snd g = [].
 Proof. split; reflexivity. Qed.
 
 (* restart(tau) on a timer whose self.proc denotes one of its processes (always, in Python) *)
-Lemma bridge_timer_restart caller tau st p :
+Lemma bridge_timer_restart caller tau nx st p :
   nth_error (procs st) (cur st) = Some p ->
-  let g := timer_gen_restart caller tau st in
+  let g := timer_gen_restart caller tau nx st in
   do_restart fixed caller tau st = timer_fx_run st (fst g) (snd g) /\
   snd g = (if is_caller caller (cur st) then [] else if alive p then [FxInterrupt; FxNewProc] else []).
 Proof.
   intros Hp. unfold timer_gen_restart, gen_Timer_restart, do_restart, cur_alive, timer_fx_run, alive_test.
+  rewrite arm_guard_dead.
   rewrite Hp. cbn [fixed fx_selfcb fx_alive andb].
   destruct (is_caller caller (cur st)) eqn:EC; cbn.
   - split; reflexivity.
